@@ -45,6 +45,7 @@ type Solver struct {
 	XEvery  int
 	xcount  int
 	xid     string
+	sinceReset int
 }
 
 func NewSolver(kind SolverKind, timeoutMs int) (*Solver, error) {
@@ -338,6 +339,20 @@ func (s *Solver) getModel(vars []*Term) Model {
 // on the solver's assertion stack between calls) and returns values for wantVars on sat.
 func (s *Solver) Solve(conj []*Term, wantVars []*Term) (Verdict, Model) {
 	s.errLine = ""
+	// the solver process accumulates memory over many push/pop rounds: start afresh regularly
+	s.sinceReset++
+	if s.sinceReset >= 3000 && len(s.levels) == 1 {
+		s.sinceReset = 0
+		s.send("(reset)")
+		s.send("(set-option :print-success false)")
+		if s.kind != CVC5 {
+			s.send("(set-option :produce-models true)")
+			s.send(fmt.Sprintf("(set-option :timeout %d)", s.timeout))
+		}
+		s.send("(set-logic QF_BV)")
+		s.defined = map[int]bool{}
+		s.levels = [][]int{nil}
+	}
 	dump := false
 	if s.XDir != "" && s.XEvery > 0 {
 		s.xcount++
